@@ -86,6 +86,7 @@ func runC15(c *Ctx) {
 	}
 	L.Floor("frame", 1, "Mask, MaskOccurences, MaskUnique (floor = half of the instances on the pinned tree: a clean-up may merge instances, a rule that sees nothing must still fail)")
 	L.Assumes("alignment shape invariant: every row reached through the receiver has the cached length")
+	c.checkLoopTables("per-iteration-table", "align")
 }
 
 // rowStores: stores whose address indexes a row buffer.
@@ -910,7 +911,7 @@ func clearedPerIteration(fn *ssa.Function, col *loop, mk ssa.Value, _ *ssa.Store
 				return
 			}
 		}
-		if innermostLoopOf(loops, call.Block()) != col {
+		if in := innermostLoopOf(loops, call.Block()); in == nil || in.Head != col.Head {
 			return
 		}
 		for _, st := range updates {
